@@ -63,3 +63,4 @@ META = {
     "assumptions": [],
     "stubs": ["AVX intrinsic lane models as in C10"],
 }
+THOROUGH_SAMPLE = 60
